@@ -609,6 +609,10 @@ Fixpoint no_dups {K} (eqb : K -> K -> bool) (l : list K) : bool :=
 Definition s_group {K} (eqb : K -> K -> bool) (l : list K) : val :=
   VL (map (fun k => VL (positions_of eqb k 0 l)) (dedup_by eqb [] l)).
 
+(* Floor: an integer when the floored value lies strictly inside (-2^63, 2^63), otherwise the (already integral) real *)
+Definition s_floor_fits : val -> bool := floor_fits_gen true.
+Definition s_floor : val -> res := sc_floor_gen true.
+
 Definition s_monad (f : string) (a : val) : res :=
   if fis f "eval_monad_atom" then Ok (b2v (match a with VL (_ :: _) | VS (_ :: _) => false | _ => true end)) else
   if fis f "eval_monad_char" then s1 sc_char a else
@@ -620,7 +624,7 @@ Definition s_monad (f : string) (a : val) : res :=
      | _ => Err end) else
   if fis f "eval_monad_first" then
     (match a with VL (x :: _) => Ok x | VS (c :: _) => Ok (VC c) | _ => Ok a end) else
-  if fis f "eval_monad_floor" then s1 sc_floor a else
+  if fis f "eval_monad_floor" then s1 s_floor a else
   if fis f "eval_monad_list" then (match a with VC c => Ok (VS [c]) | _ => Ok (VL [a]) end) else
   if fis f "eval_monad_negate" then s1 sc_neg a else
   if fis f "eval_monad_reciprocal" then (if negb (is_arr a) && is_zero a then Ok VU else s1 sc_recip a) else
